@@ -99,8 +99,16 @@ def make(i, base_seed, tier):
                 ops.append({"node": who, "op": "multicast_level", "v": rng.randint(0, 4)})
             elif o < 0.9:
                 ops.append({"node": who, "op": "node_address", "v": rng.choice([who, rng.choice(topo), 0o5, 0o15, 0o7, 0o4444])})
-            elif o < 0.95:
+            elif o < 0.93:
                 ops.append({"node": who, "op": "restart"})
+            elif o < 0.96:
+                # radio attributes the network classes pass through; none of them may take the node out of RX mode
+                ops.append({"node": who, "op": "radio_cfg", "what": rng.choice(["interrupt_config", "pa_level", "channel_same", "getters"]),
+                            "args": [rng.random() < 0.5 for _ in range(3)]})
+            elif o < 0.98:
+                # documented way to apply new address bytes / multicast setting: change them, then re-assign node_address
+                ops.append({"node": who, "op": "reconfigure", "prefix": rng.choice([0xCC, 0x5A, 0x11]), "suffix_rot": rng.randrange(6),
+                            "multicast": rng.random() < 0.7})
             else:
                 ops.append({"node": who, "op": "settle"})
         scn.update({"nodes": nodes, "ops": ops, "tx_timeout": rng.choice([5, 25]), "route_timeout": rng.choice([15, 75])})
@@ -252,6 +260,26 @@ def _run_net(scn, w, net, res):
                 return node.write(RF24NetworkFrame(h, data))
             if op["op"] == "multicast":
                 return node.multicast(payload(op["seed"], op["len"]), op["type"], op["level"])
+            if op["op"] == "radio_cfg":
+                import contextlib, io
+                if op["what"] == "interrupt_config":
+                    node.interrupt_config(*op["args"])
+                elif op["what"] == "pa_level":
+                    node.pa_level = -12
+                elif op["what"] == "channel_same":
+                    node.channel = node.channel
+                else:
+                    with contextlib.redirect_stdout(io.StringIO()):
+                        node.print_pipes()
+                    node.address(0), node.last_tx_arc, node.fifo(False), node.get_auto_retries(), node.crc, node.data_rate, node.power, node.listen
+                return None
+            if op["op"] == "reconfigure":
+                base = [0xC3, 0x3C, 0x33, 0xCE, 0x3E, 0xE3]
+                node.address_prefix = bytearray([op["prefix"]])
+                node.address_suffix = bytearray(base[op["suffix_rot"]:] + base[:op["suffix_rot"]])
+                node.allow_multicast = op["multicast"]
+                node.node_address = node.node_address
+                return None
             if op["op"] == "restart":
                 # crash + restart of the MCU at this point of the history: the radio keeps its registers, FIFOs, CE and mode
                 return net.restart(net.nodes[op["node"]])
